@@ -29,7 +29,7 @@ def gen(rnd, color):
         # an ill-typed line at the very end: the blanket handler prints a traceback and `Error: ` with an EMPTY message text
         bad = rnd.choice(['[9999999.000] wl_display@1.delete_id("x")', '[9999999.000] wl_registry@2.bind(1)'])
         k = len(case['impl_events']) - 1
-        while k > 0 and case['impl_events'][k][0] != 'eof':
+        while k > 0 and case['impl_events'][k][0] not in ('eof', 'intr'):
             k -= 1
         case['impl_events'].insert(k, ('line', bad))
         case['events'].insert(k, ['text', bad])      # the model side of this case is not compared (see run): only the on/off relation on /repo
@@ -57,7 +57,7 @@ def run(res):
         else:
             for k, (a, b) in enumerate(zip(on, off)):
                 ev = c['events'][k]
-                if ev[0] == 'eof':
+                if ev[0] in ('eof', 'intr'):
                     a = sorted(a, key=lambda x: (x[0], SGR.sub('', x[1])))
                     b = sorted(b, key=lambda x: (x[0], SGR.sub('', x[1])))
                 if [s for s, _ in a] != [s for s, _ in b] or [SGR.sub('', t) for _, t in a] != [t if ev[0] != 'text' else SGR.sub('', t) for _, t in b]:
@@ -79,8 +79,42 @@ def run(res):
                            nontrivial=lambda c, m: False, kernel_sample=6)
     # (3) pasted back
     pasted_back(res, rnd)
+    colour_switch(res, rnd)
     res.rule = ('generated sessions with chatter (incl. lines carrying their own escape sequences), all argument kinds, and commands of every kind, each run under --color and --no-color; '
                 'coloured matcher / command text pasted back; non-trivial = session whose stripped coloured output equals its uncoloured output; distinct by input')
+
+
+def colour_switch(res, rnd):
+    """which of the two settings a command line selects: --no-color / -C always wins (also next to --color, in any order and
+    spelling), --color alone enables, neither: off unless a terminal / gdb; and with colour off a real run emits no escape sequence"""
+    import contextlib
+    import io
+    import itertools
+    import subprocess
+    import sys
+    import common
+    from frontends.tui import arguments
+    flags = ['-C', '--no-color', '--color', '--no-col', '--col']
+    combos = [[]] + [[f] for f in flags] + [list(p) for p in itertools.permutations(flags, 2)] + [['-C', '--color', '-C'], ['--color', '--color', '--no-color']]
+    for combo in combos:
+        argv = ['main.py', '-p'] + combo
+        want = False if any(f in ('-C', '--no-color', '--no-col') for f in combo) else bool(combo)
+        try:
+            with contextlib.redirect_stdout(io.StringIO()), contextlib.redirect_stderr(io.StringIO()):
+                got = bool(arguments.parse_args(argv).show_color)
+        except BaseException as e:
+            got = repr(e)
+        res.evaluations += 1
+        if got != want:
+            res.disagree('the colour options select the wrong setting', argv, want, got, sig={'category': 'colour-switch', 'flags': ' '.join(combo)})
+    log = '[1.000]  -> wl_display@1.get_registry(new id wl_registry@2)\nchatter\n[1.100] wl_registry@2.global(1, "wl_shm", 1)\n'
+    for combo in (['-C', '--color'], ['--color', '--no-color'], ['-C']):
+        r = subprocess.run([sys.executable, '-B', __import__('os').path.join(common.REPO, 'main.py'), '-p'] + combo, input=log, capture_output=True, text=True,
+                           env=dict(__import__('os').environ, PYTHONPATH=common.REPO), timeout=120)
+        res.evaluations += 1
+        if '\x1b' in r.stdout or '\x1b' in r.stderr or r.returncode != 0:
+            res.disagree('with colour disabled on the command line the tool emits escape sequences of its own', ['main.py', '-p'] + combo, 'no ESC',
+                         [r.returncode, (r.stdout + r.stderr)[:300]], sig={'category': 'colour-switch', 'flags': ' '.join(combo), 'entry': 'process'}, theorem='C17_off_no_escape')
 
 
 def pasted_back(res, rnd):
@@ -97,7 +131,6 @@ def pasted_back(res, rnd):
             plain = str(m0)
             set_color_output(True)
             coloured = str(matcher.parse(t))
-            m1 = matcher.parse(coloured)
             set_color_output(False)
             m2 = matcher.parse(plain)
         except RuntimeError:
@@ -106,6 +139,22 @@ def pasted_back(res, rnd):
         finally:
             set_color_output(False)
         res.evaluations += 1
+        # the plain text is accepted: the coloured text must be too, by matcher.parse and on the command line (-f / -b)
+        try:
+            m1 = matcher.parse(coloured)
+            import implsession
+            f1, b1, _c, _u = implsession.startup([coloured, coloured, 0, 1, 0])
+            f2, b2, _c, _u = implsession.startup([plain, plain, 0, 1, 0])
+            set_color_output(False)
+            if (str(f1), str(b1)) != (str(f2), str(b2)):
+                res.disagree('coloured matcher given with -f / -b is understood differently', t, [str(f2), str(b2)], [str(f1), str(b1)],
+                             sig={'category': 'pasted-matcher', 'entry': 'command line'}, theorem='C17_parse_ignores_colour')
+                continue
+        except Exception as e:
+            set_color_output(False)
+            res.disagree('coloured matcher text is rejected although its plain text is accepted', [t, coloured], 'accepted', repr(e)[:300],
+                         sig={'category': 'pasted-matcher', 'exception': type(e).__name__}, theorem='C17_parse_ignores_colour')
+            continue
         if no_color(coloured) != plain:
             res.disagree('coloured matcher text, stripped, differs from plain text', t, plain, coloured, sig={'category': 'matcher-str'})
             continue
